@@ -150,7 +150,7 @@ def notLike (m : String) (item : Item) : Option String :=
                      un := fun a => s!"{a}.{m}()", empty := fun _ => "" }
     some (construct n sh fs (renderAll c (fieldwiseUn fs.length)))
   | .enum n vs =>
-    let hasUnit := vs.any fun v => match v.shape with | .unit => true | _ => false
+    let hasUnit := notHasUnit (vs.map fun v => match v.shape with | .unit => VKind.unit | _ => VKind.fields v.fields.length)
     let arms := vs.map fun v =>
       let path := s!"{n}::{v.name}"
       match v.shape with
